@@ -288,6 +288,23 @@ def roundtrip(c, obj, path, audio_dir, spec, cycles=2):
         c.violate("lossless", f"lossless:{type(obj).__name__}:{_field_key(obj, dd[0])}", observed={"path": dd[0], "original": dd[1], "loaded": dd[2]},
                   expected="equal in every declared field", spec=spec)
         return loaded
+    if c.every(spec, 5):
+        # the caller owns a loaded collection: an earlier load of the same file is edited in place (lists reordered,
+        # members dropped); a later load of that file still equals the original
+        try:
+            from rv.core import scribble
+
+            victim = raw_load(path, audio_dir)
+            if scribble.scribble(victim):
+                c.mon("reload_after_result_edit")
+                dd = diff(obj, raw_load(path, audio_dir))
+                if dd:
+                    c.violate("lossless", f"lossless:{type(obj).__name__}:{_field_key(obj, dd[0])}:after_caller_edited_earlier_load",
+                              observed={"path": dd[0], "original": dd[1], "loaded": dd[2]}, expected="equal in every declared field", spec=spec)
+                    return loaded
+        except Exception as e:
+            c.violate_exc("load_raises", f"load_raises_on_repeat:{type(obj).__name__}:{type(e).__name__}", e, spec=spec)
+            return loaded
     prev, prev_path = loaded, path
     for k in range(cycles):
         p2 = os.path.join(tmpdir(), f"cycle-{os.getpid()}-{k}.json")
